@@ -134,6 +134,17 @@ pub fn new(parameters: &RawParameters, ctx: &dyn Context) -> Result<Op, Error> {
         }
     }
 
+    // The kind of correction (geoid height or horizontal datum shift) is a property
+    // of the operation, not of the grid that happens to contain a given point
+    if let Some(first) = params.grids.first() {
+        if params.grids.iter().any(|g| g.bands() != first.bands()) {
+            return Err(Error::Unsupported(format!(
+                "gridshift: geoid and datum shift grids mixed in '{}'",
+                params.texts("grids")?.join(",")
+            )));
+        }
+    }
+
     let fwd = InnerOp(fwd);
     let inv = InnerOp(inv);
     let descriptor = OpDescriptor::new(def, fwd, Some(inv));
